@@ -116,7 +116,7 @@ pub fn push_sel(sh: &mut Sheet, d: u32, idx: u64, base_ctx: &str, fdepth: u32) {
 }
 
 /// rule-bearing wrappers: (name, pieces of the opening up to and including `{`)
-pub const WRAPPERS: &[&str] = &["@media", "@supports", "@layer", "@container", "@scope", "@document", "@MEDIA"];
+pub const WRAPPERS: &[&str] = &["@media", "@supports", "@layer", "@container", "@scope", "@document", "@MEDIA", "@supports-nested"];
 
 pub fn push_wrapper_open(sh: &mut Sheet, w: usize) {
     let ctx = format!("prelude:{}", WRAPPERS[w]);
@@ -196,6 +196,34 @@ pub fn push_wrapper_open(sh: &mut Sheet, w: usize) {
             sh.plain("@MEDIA", &ctx);
             sh.ws(false, &ctx);
             sh.plain("print", &ctx);
+        }
+        7 => {
+            // plain parentheses nested inside the parentheses of a prelude are still selector context
+            sh.plain("@supports", &ctx);
+            sh.ws(false, &ctx);
+            sh.plain("not", &ctx);
+            sh.ws(false, &ctx);
+            sh.plain("(", &ctx);
+            sh.plain("(", &ctx);
+            sh.plain("selector(", &ctx);
+            sh.plain(".", &ctx);
+            sh.push("n", Role::Class, &ctx);
+            sh.ws(true, &ctx);
+            sh.plain(".", &ctx);
+            sh.push("o", Role::Class, &ctx);
+            sh.plain(")", &ctx);
+            sh.plain(")", &ctx);
+            sh.ws(true, &ctx);
+            sh.plain("or", &ctx);
+            sh.ws(true, &ctx);
+            sh.plain("(", &ctx);
+            sh.plain("(", &ctx);
+            sh.plain("a", &ctx);
+            sh.plain(":", &ctx);
+            sh.plain("b", &ctx);
+            sh.plain(")", &ctx);
+            sh.plain(")", &ctx);
+            sh.plain(")", &ctx);
         }
         _ => unreachable!(),
     }
@@ -308,6 +336,7 @@ pub const KINDS: &[Kind] = &[
     Kind { name: "px", pieces: &["1px"], micro: None },
     Kind { name: "rpx", pieces: &["75rpx"], micro: None },
     Kind { name: "neg-rpx", pieces: &["-1.5rpx"], micro: None },
+    Kind { name: "pos-rpx", pieces: &["+15rpx"], micro: None },
     Kind { name: "dim-e", pieces: &["1e"], micro: None },
     Kind { name: "dim-exp-unit", pieces: &["1e1m"], micro: None },
     Kind { name: "unicode-range", pieces: &["U", "+26"], micro: Some(Micro::UnicodeRange) },
@@ -344,6 +373,10 @@ pub const VALUE_CONTEXTS: &[(&str, &[&str], &[&str])] = &[
     ("calc-calc", &[".", "a", "{", "k", ":", "calc(", "1px", " ", "+", " ", "calc("], &[")", ")", "}"]),
     ("calc-after-paren", &[".", "a", "{", "k", ":", "calc(", "(", "1px", ")"], &[")", "}"]),
     ("calc-upper", &[".", "a", "{", "k", ":", "CALC("], &[")", "}"]),
+    // (the other math functions hold calculations as well)
+    ("calc-like-min", &[".", "a", "{", "k", ":", "min("], &[",", "5px", ")", "}"]),
+    ("calc-like-clamp-upper", &[".", "a", "{", "k", ":", "CLAMP(", "1px", ","], &[",", "9px", ")", "}"]),
+    ("calc-like-round-in-function", &[".", "a", "{", "k", ":", "f(", "round("], &[")", ")", "}"]),
     ("function-arg", &[".", "a", "{", "k", ":", "f("], &[")", "}"]),
     ("media-feature", &["@media", " ", "(", "min-width", ":"], &[")", "{", "}"]),
     ("keyframes", &["@keyframes", " ", "n", "{", "50%", "{", "k", ":"], &["}", "}"]),
